@@ -162,6 +162,19 @@ Theorem C14_adopt : forall ids shape d t,
 Proof. exact build_holds. Qed.
 Print Assumptions C14_adopt.
 
+(* ... and the active range a joined fiber reports is the one it was constructed with or else
+   [0, the rank's reported shape): nothing the fiber derived on its own before joining survives *)
+Theorem C14_adopt_active : forall ids shape d t,
+  wf_kb ids shape d t = true ->
+  forall l f, In f (alevel l t) ->
+  get_active (fst (nth l (build_ranks (length ids) shape t) (None, true))) f
+  = match f with
+    | ANode _ (Some a) _ => a
+    | _ => (0, nth l (reported (build_ranks (length ids) shape t) t) 0)
+    end.
+Proof. exact build_active_exact. Qed.
+Print Assumptions C14_adopt_active.
+
 Theorem C14_active_is_occupancy : forall d lo hi es,
   (forall c, In c (map fst es) -> lo <= c < hi) ->
   iter_active d (lo, hi) es = iter_occupancy d es.
